@@ -1110,6 +1110,12 @@ func (f *Frame) frameFact1(k, hb, ha, alloc, guard string, modObjs []string) {
 			}
 			continue
 		}
+		if strings.HasPrefix(m, "(pobj ") && strings.HasSuffix(m, ")") {
+			// `modifies x` with x == nil names no object
+			x := m[6 : len(m)-1]
+			ex = append(ex, fmt.Sprintf("(or (= %s nil) (not (= (pobj p) %s)))", x, m))
+			continue
+		}
 		ex = append(ex, fmt.Sprintf("(not (= (pobj p) %s))", m))
 	}
 	cond = And(append([]string{"(not (= p nil))", cond}, ex...)...)
